@@ -100,6 +100,28 @@ impl<K, V> MapRange<K, V> {
         ensures B::collected(self.items@, r)
     { unimplemented!() }
 }
+/// result of `MapRange::filter_map` (std adapter with its std meaning)
+pub struct FilterMapped<B> { pub out: Ghost<Seq<B>> }
+impl<B> FilterMapped<B> {
+    #[verifier::external_body]
+    pub fn collect(self) -> (r: Vec<B>)
+        ensures r@ == self.out@
+    { unimplemented!() }
+}
+pub open spec fn opt_some<B>() -> spec_fn(Option<B>) -> bool { |o: Option<B>| o is Some }
+pub open spec fn opt_get<B>() -> spec_fn(Option<B>) -> B { |o: Option<B>| o->Some_0 }
+impl<K, V> MapRange<K, V> {
+    /// std `filter_map`: whenever the closure's result is a function `g` of its argument, the
+    /// output is `items.map(g)` with the `None`s dropped, in order.
+    #[verifier::external_body]
+    pub fn filter_map<B, F: FnMut(StdResult<(K, V)>) -> Option<B>>(self, f: F) -> (r: FilterMapped<B>)
+        requires forall|i: int| 0 <= i < self.items@.len() ==> call_requires(f, (#[trigger] self.items@[i],)),
+        ensures
+            forall|g: spec_fn(StdResult<(K, V)>) -> Option<B>| #![trigger self.items@.map_values(g)]
+                (forall|a: StdResult<(K, V)>, o: Option<B>| #[trigger] call_ensures(f, (a,), o) ==> o == g(a))
+                ==> r.out@ == self.items@.map_values(g).filter(opt_some::<B>()).map_values(opt_get::<B>()),
+    { unimplemented!() }
+}
 pub trait FromResults<T>: Sized {
     spec fn collected(items: Seq<StdResult<T>>, r: Self) -> bool;
 }
@@ -234,6 +256,35 @@ impl<'a, T: Serialize, I> IndexedMap<'a, (u64, String), T, I> {
     { unimplemented!() }
 }
 #[derive(Debug)]
+/// `idx.by_user.prefix(user)`: the entries whose *value* is indexed under `user`
+/// (the index function of the repo's only UniqueIndex is `(r.user, r.batch_id)`, see state.vc)
+pub struct UPrefix<T> { pub user: String, pub p: PhantomData<T> }
+impl<'a, T: Serialize, PK> UniqueIndex<'a, (String, u64), T, PK> {
+    #[verifier::external_body]
+    pub fn prefix(&self, p: String) -> (r: UPrefix<T>)
+        ensures r.user == p
+    { unimplemented!() }
+    /// whole-index range with a bound: deprecated queries only, left unspecified
+    #[verifier::external_body]
+    pub fn range(&self, s: &Storage, min: Option<Bound<'a, (String, u64)>>, max: Option<Bound<'a, (String, u64)>>, order: Order)
+        -> (r: MapRange<(), T>)
+    { unimplemented!() }
+}
+impl<T: Serialize> UPrefix<T> {
+    #[verifier::external_body]
+    pub fn range<'a>(&self, s: &Storage, min: Option<Bound<'a, u64>>, max: Option<Bound<'a, u64>>, order: Order)
+        -> (r: MapRange<(), T>)
+        requires min is None, max is None, order == Order::Ascending,
+        ensures
+            forall|i: int| 0 <= i < r.items@.len() ==> (#[trigger] r.items@[i]) is Ok
+                && T::idx_user(r.items@[i]->Ok_0.1) == self.user
+                && T::imap_get(s@).contains_value(r.items@[i]->Ok_0.1),
+            forall|k: (u64, String)| #[trigger] T::imap_get(s@).dom().contains(k) && T::idx_user(T::imap_get(s@)[k]) == self.user
+                ==> exists|i: int| 0 <= i < r.items@.len() && (#[trigger] r.items@[i])->Ok_0.1 == T::imap_get(s@)[k],
+            forall|i: int, j: int| 0 <= i < j < r.items@.len()
+                ==> T::idx_batch((#[trigger] r.items@[i])->Ok_0.1) < T::idx_batch((#[trigger] r.items@[j])->Ok_0.1),
+    { unimplemented!() }
+}
 pub struct IPrefix<T> { pub batch: u64, pub p: PhantomData<T> }
 impl<T: Serialize> IPrefix<T> {
     /// entries of one batch, ordered by user string
